@@ -1,12 +1,37 @@
 import GqlVerif.Props.C02
 /-!
-# C02 — the response items of a generated module are closed (and defined once)
+# C02 — the response items of a generated module are closed and defined once
 
 `Props/C02.lean` proves that the mentions of the emitted *input* items and of `Variables` are resolved
 inside the module `Codegen.responseForQuery` emits.  This file proves the same for the **response
-items**: the structs / tagged enums / aliases produced by `responseItems` and `fragmentItems` (the four
-mutual `calc*` functions of `Model/Codegen.lean`, `renderType`, `renderField`), and combines the three
-results into a statement about every item of the module.
+items** — the structs / tagged enums / aliases produced by `responseItems` and `fragmentItems` (the four
+mutual `calc*` functions of `Model/Codegen.lean`, `renderType`, `renderField`) — and assembles the
+executable scope check `Scope.wellScoped` on the whole module.  All statements are about the model's own
+functions, for all schemas, queries, operations, options and case functions (no bound on sizes); core Lean
+only.
+
+* §2 one-step decompositions of a successful `calcSelection` / `calcVariants` / `calcVariantSels` /
+  `calcFields` call (`calcSelection_ok`, `calcVariants_ok`, …): the only place where the `do` blocks are opened.
+* §3 `calc_closed` — simultaneous induction over the four functions: the item list of a `calc*` call is
+  closed (every mention is defined by an item of the same list, or resolved globally) whenever the used set
+  covers the selections at hand (`Cov`, from `C02.selPhase_spec`) and the global part resolves the used
+  enums / scalars / fragments (`GOK`).
+* §4 **`response_mentions_resolved`** (normalization `none`, `supplied = externEnums`) and
+  **`response_mentions_resolved_mapped`** (any normalization, explicit name mapping `NameMapOK`,
+  `supplied = externSupplied`): every mention of every item of `fragmentItems` / `responseItems` is resolved
+  in the emitted module.  No well-formedness or keyword hypothesis is needed for the response side.
+* §5 **`module_well_scoped_partial`** / `module_no_undefined_mentions` — with the input / `Variables`
+  theorems: every mention of *every* item of the module is resolved (`supplied = moduleSupplied`: extern
+  enums and the paths of the custom scalars).
+* §6 `calc_names`, **`module_defines_eq`** — the list of names the module defines equals `moduleNames`, a
+  structurally recursive function of the selection trees (path-concatenated names); hence
+  **`defines_nodup_iff`** / **`defines_nodup`**: no name is defined twice iff the decidable `NoClash` holds.
+* §7 `calc_shape`, **`module_serde_crate`** — every item with a serde derive names the serde crate.
+* §8 **`module_well_scoped_iff`** — under the hypotheses of §5, `Scope.wellScoped` holds on the emitted
+  module iff `NoClash` holds and no item has two members of the same identifier.
+* §9 non-vacuity (`richCtx`) and necessity witnesses: `normalization_needed`, `nameMap_needed`,
+  `defines_dup_witness` (path collision `a.bC` / `aB.c`), `member_dup_witness` (field `on`),
+  `keyword_enum_variable_mismatch`, `object_variable_unresolved`.
 -/
 namespace GqlVerif
 namespace C02
@@ -176,7 +201,7 @@ def VariantStep (c : Ctx) (f : Nat) (pfx : String) (vt : TypeId) (mine : List Va
     (thisV : RVariant) (thisItems : List Item) : Prop :=
   let sname := pfx ++ "On" ++ vname
   (mine = [] ∧ thisV = { name := vname } ∧ thisItems = []) ∨
-  (thisV = { name := vname, payload := some (.path sname) } ∧
+  (mine ≠ [] ∧ thisV = { name := vname, payload := some (.path sname) } ∧
     ((∃ fid fr, mine = [.spread fid fr] ∧ thisItems = [aliasItem sname fr.name (fragmentIsRecursive c.q fid)]) ∨
      (∃ r, calcVariantSels c f sname pfx vt mine = .ok r ∧
         ((∃ a tl, r.2.2 = a :: tl ∧ thisItems = a :: r.2.1) ∨
@@ -210,7 +235,7 @@ theorem calcVariants_ok {c : Ctx} {f : Nat} {name pfx : String} {vsels : List Va
     · rename_i fid fr hs
       simp only [pure_bind] at h
       obtain ⟨vs', items', hr, h1, h2⟩ := fin h
-      refine ⟨vname, _, _, vs', items', hvn, hr, h1, h2, .inr ⟨rfl, .inl ⟨fid, fr, ?_, rfl⟩⟩⟩
+      refine ⟨vname, _, _, vs', items', hvn, hr, h1, h2, .inr ⟨by simp [hm], rfl, .inl ⟨fid, fr, ?_, rfl⟩⟩⟩
       split at hs
       · rename_i fid' fr' hm'
         simp only [Option.some.injEq, Prod.mk.injEq] at hs
@@ -221,11 +246,11 @@ theorem calcVariants_ok {c : Ctx} {f : Nat} {name pfx : String} {vsels : List Va
       · rename_i a tl' hal
         simp only [pure_bind] at h
         obtain ⟨vs', items', hr, h1, h2⟩ := fin h
-        exact ⟨vname, _, _, vs', items', hvn, hr, h1, h2, .inr ⟨rfl, .inr ⟨r, hr0, .inl ⟨a, tl', hal, rfl⟩⟩⟩⟩
+        exact ⟨vname, _, _, vs', items', hvn, hr, h1, h2, .inr ⟨by simp [hm], rfl, .inr ⟨r, hr0, .inl ⟨a, tl', hal, rfl⟩⟩⟩⟩
       · rename_i hal
         simp only [pure_bind] at h
         obtain ⟨vs', items', hr, h1, h2⟩ := fin h
-        exact ⟨vname, _, _, vs', items', hvn, hr, h1, h2, .inr ⟨rfl, .inr ⟨r, hr0, .inr ⟨hal, rfl⟩⟩⟩⟩
+        exact ⟨vname, _, _, vs', items', hvn, hr, h1, h2, .inr ⟨by simp [hm], rfl, .inr ⟨r, hr0, .inr ⟨hal, rfl⟩⟩⟩⟩
 
 theorem calcVariantSels_inline_ok {c : Ctx} {f : Nat} {sname pfx : String} {vt t : TypeId} {sub : List Sel}
     {rest : List VariantSel} {fs : List RField} {items al : List Item}
@@ -335,22 +360,25 @@ theorem calcFields_spread_ok {c : Ctx} {f : Nat} {pfx : String} {ty : TypeId} {f
     {rest : List Sel} {fs : List RField} {items : List Item}
     (h : calcFields c (f + 1) pfx ty (.spread fid :: rest) = .ok (fs, items)) :
     ∃ fr fs', c.q.fragments[fid]? = some fr ∧ calcFields c f pfx ty rest = .ok (fs', items) ∧
-      (fs = fs' ∨ ∃ fld, renderField c none (keywordReplace (c.cs.snake fr.name)) fr.name [.required] true
-                    (fragmentIsRecursive c.q fid) none = .ok fld ∧ fs = fld.toList ++ fs') := by
+      (((fr.on != ty) = true ∧ fs = fs') ∨
+       ((fr.on != ty) = false ∧ ∃ fld, renderField c none (keywordReplace (c.cs.snake fr.name)) fr.name [.required] true
+                    (fragmentIsRecursive c.q fid) none = .ok fld ∧ fs = fld.toList ++ fs')) := by
   rw [calcFields.eq_4] at h
   obtain ⟨fr, hfr, h⟩ := bind_ok h
   obtain ⟨⟨fs', items'⟩, hr, h⟩ := bind_ok h
   simp only [] at h
   split at h
-  · simp only [pure, Except.pure, Except.ok.injEq, Prod.mk.injEq] at h
-    obtain ⟨h1, h2⟩ := h
-    subst h2
-    exact ⟨fr, fs', getFragment_ok hfr, hr, .inl h1.symm⟩
-  · obtain ⟨fld, hfld, h⟩ := bind_ok h
+  · rename_i hc
     simp only [pure, Except.pure, Except.ok.injEq, Prod.mk.injEq] at h
     obtain ⟨h1, h2⟩ := h
     subst h2
-    exact ⟨fr, fs', getFragment_ok hfr, hr, .inr ⟨fld, hfld, h1.symm⟩⟩
+    exact ⟨fr, fs', getFragment_ok hfr, hr, .inl ⟨hc, h1.symm⟩⟩
+  · rename_i hc
+    obtain ⟨fld, hfld, h⟩ := bind_ok h
+    simp only [pure, Except.pure, Except.ok.injEq, Prod.mk.injEq] at h
+    obtain ⟨h1, h2⟩ := h
+    subst h2
+    exact ⟨fr, fs', getFragment_ok hfr, hr, .inr ⟨by simpa using hc, fld, hfld, h1.symm⟩⟩
 
 /-! ## 3. the `calc*` block emits closed item lists -/
 
@@ -506,7 +534,7 @@ theorem rstep4 (hG : GOK c u G) (f : Nat) (H1 : RStmt1 c u G f) (H4 : RStmt4 c u
       obtain ⟨fr, fs', hfr, hr, hfs⟩ := calcFields_spread_ok h
       have ⟨ih1, ih2⟩ := H4 pfx ty rest fs' items hcov.tail hr
       refine ⟨fun f hf => ?_, ih2⟩
-      rcases hfs with rfl | ⟨fld, hfld, rfl⟩
+      rcases hfs with ⟨_, rfl⟩ | ⟨_, fld, hfld, rfl⟩
       · exact ih1 f hf
       · rcases List.mem_append.mp hf with hf | hf
         · rw [renderField_leaf hfld f hf]
@@ -572,7 +600,7 @@ theorem rstep2 (hG : GOK c u G) (f : Nat) (H2 : RStmt2 c u G f) (H3 : RStmt3 c u
     have ⟨ih1, ih2⟩ := H2 name pfx vsels rest vs' items' hvok hr
     have hmine : VOK c u (vsels.filter (fun v => v.typeId == vt)) := hvok.filter _
     have key : (∀ t, thisV.payload = some t → Res G thisItems (Scope.leaf t)) ∧ ClosedIn G thisItems thisItems := by
-      rcases hstep with ⟨_, rfl, rfl⟩ | ⟨rfl, hstep⟩
+      rcases hstep with ⟨_, rfl, rfl⟩ | ⟨_, rfl, hstep⟩
       · exact ⟨fun t ht => (by cases ht), ClosedIn.nil⟩
       · simp only [Option.some.injEq]
         rcases hstep with ⟨g, fr, hm, rfl⟩ | ⟨r, hr0, hstep⟩
@@ -720,46 +748,84 @@ theorem resolved_mono_supplied {items : List Item} {sup sup' : List String} {n :
   · exact .inl h
   · exact .inr (hs _ h)
 
-/-- **response items are resolved in the emitted module.**  For every operation for which
-    `responseForQuery` succeeds (normalization `none`), every type name mentioned by an item emitted for
-    the response (`responseItems`: `ResponseData` and its nested structs / variant enums / aliases) or for a
-    used fragment (`fragmentItems`) is an item of the same module, a Rust prelude type or an extern enum
-    the consumer supplies.  No well-formedness hypothesis on schema or query is needed: an ill-formed
-    query makes `responseForQuery` fail. -/
-theorem response_mentions_resolved (c : Ctx) (op : Nat) (items : List Item)
-    (hnorm : c.o.normalization = .none)
+/-- the bare names the consumer has to supply for the extern enums: the enum names as the generated code
+    spells them in field position (`Normalization.fieldType`; the identity for normalization `none`) -/
+def externSupplied (c : Ctx) : List String :=
+  c.o.externEnums.map (c.o.normalization.fieldType c.cs)
+
+theorem externSupplied_none {c : Ctx} (hnorm : c.o.normalization = .none) : externSupplied c = c.o.externEnums := by
+  unfold externSupplied
+  rw [hnorm]
+  have : Normalization.fieldType .none c.cs = id := funext (fieldType_none c.cs)
+  rw [this, List.map_id]
+
+/-- the name mapping between field position and declaration (`Normalization.fieldType` vs
+    `enumName` / `scalarName`) is consistent on the schema's enums and scalars.  Trivially true for
+    normalization `none` (`NameMapOK.of_none`); for `rust` it says that no enum / custom scalar is called
+    `ID` or starts with `__`, and that camel-casing leaves the names of the built-in scalars alone. -/
+structure NameMapOK (c : Ctx) : Prop where
+  enums : ∀ e ∈ c.s.enums, c.o.normalization.fieldType c.cs e.name = c.o.normalization.enumName c.cs e.name
+  scalars : ∀ sn ∈ c.s.scalars, sn ∉ Schema.defaultScalars →
+    c.o.normalization.fieldType c.cs sn = c.o.normalization.scalarName c.cs sn
+  builtins : ∀ sn ∈ c.s.scalars, sn ∈ Schema.defaultScalars → c.o.normalization.fieldType c.cs sn = sn
+
+theorem NameMapOK.of_none {c : Ctx} (hnorm : c.o.normalization = .none) : NameMapOK c := by
+  refine ⟨fun e _ => ?_, fun sn _ _ => ?_, fun sn _ _ => ?_⟩ <;> rw [hnorm, fieldType_none] <;> rfl
+
+theorem builtin_resolved {sn : String} (h : sn ∈ Schema.defaultScalars) (rest : List Item) (sup : List String) :
+    Scope.resolved (builtinAliases ++ rest) sup sn = true := by
+  unfold Scope.resolved
+  simp only [Bool.or_eq_true, List.contains_iff_mem]
+  simp only [Schema.defaultScalars, List.mem_cons, List.not_mem_nil, or_false] at h
+  rcases h with rfl | rfl | rfl | rfl | rfl
+  · exact .inl (.inl (by simp [Scope.defines, builtinAliases, Scope.itemDefines, Item.name]))
+  · exact .inl (.inr (by simp [Scope.rustBuiltins]))
+  · exact .inl (.inl (by simp [Scope.defines, builtinAliases, Scope.itemDefines, Item.name]))
+  · exact .inl (.inl (by simp [Scope.defines, builtinAliases, Scope.itemDefines, Item.name]))
+  · exact .inl (.inl (by simp [Scope.defines, builtinAliases, Scope.itemDefines, Item.name]))
+
+theorem mem_defines_of_mem {items : List Item} {it : Item} (hit : it ∈ items)
+    (hd : Scope.itemDefines it = some it.name) : it.name ∈ Scope.defines items := by
+  unfold Scope.defines
+  exact List.mem_filterMap.mpr ⟨it, hit, hd⟩
+
+/-- **response items are resolved in the emitted module (any normalization, explicit name mapping).**
+    For every operation for which `responseForQuery` succeeds and a consistent name mapping
+    (`NameMapOK`), every type name mentioned by an item emitted for the response (`responseItems`:
+    `ResponseData` and its nested structs / variant enums / aliases) or for a used fragment
+    (`fragmentItems`) is an item of the same module, a Rust prelude type or an extern enum the consumer
+    supplies (under its field-position spelling).  No well-formedness hypothesis on schema or query is
+    needed: an ill-formed query makes `responseForQuery` fail. -/
+theorem response_mentions_resolved_mapped (c : Ctx) (op : Nat) (items : List Item)
+    (hmap : NameMapOK c)
     (h : responseForQuery c op = .ok items) :
     ∃ u o F R, allUsedTypes c.s c.q op = .ok u ∧ c.q.operations[op]? = some o ∧
       (sortNat u.fragments).mapM (fragmentItems c) = .ok F ∧ responseItems c o = .ok R ∧
       (∀ it ∈ F.flatten ++ R, it ∈ items) ∧
-      ∀ it ∈ F.flatten ++ R, ∀ n ∈ Scope.itemMentions it, Scope.resolved items c.o.externEnums n = true := by
+      ∀ it ∈ F.flatten ++ R, ∀ n ∈ Scope.itemMentions it, Scope.resolved items (externSupplied c) n = true := by
   obtain ⟨u, S, E, F, I, V, o, R, hu, hS, hE, hF, hI, hV, ho, hR, rfl⟩ := responseForQuery_ok_full h
   refine ⟨u, o, F, R, hu, ho, hF, hR, fun it hit => ?_, ?_⟩
   · rcases List.mem_append.mp hit with hit | hit <;> simp [hit]
   have ⟨hroot, hfrs⟩ := used_covered hu ho
-  -- the global part
-  have hdef : ∀ n, Defined c S E I n →
-      Scope.resolved (builtinAliases ++ S ++ E ++ I ++ V ++ F.flatten ++ R) c.o.externEnums n = true := by
-    intro n hn
-    have := defined_resolved (V ++ F.flatten) R hS hE hI n hn
-    simpa [List.append_assoc] using this
   have hG : GOK c u (fun n => Scope.resolved (builtinAliases ++ S ++ E ++ I ++ V ++ F.flatten ++ R)
-      c.o.externEnums n = true) := by
+      (externSupplied c) n = true) := by
     refine ⟨fun k en hk hen => ?_, fun k sn hk hsn => ?_, fun g fr hg hfr => ?_⟩
-    · rw [hnorm, fieldType_none]
-      apply hdef
-      by_cases hx : en.name ∈ c.o.externEnums
-      · exact .inr (.inl hx)
+    · by_cases hx : en.name ∈ c.o.externEnums
+      · unfold Scope.resolved
+        simp only [Bool.or_eq_true, List.contains_iff_mem]
+        exact .inr (List.mem_map.mpr ⟨_, hx, rfl⟩)
       · obtain ⟨it, hit, hname⟩ := enumItems_defines hE hk hen hx
-        refine .inr (.inr ⟨it, by simp [hit], ?_⟩)
-        rw [hname, hnorm]; rfl
-    · rw [hnorm, fieldType_none]
-      apply hdef
-      by_cases hd : sn ∈ Schema.defaultScalars
-      · exact .inl hd
+        rw [hmap.enums en (List.mem_of_getElem? hen), ← hname]
+        apply resolved_of_defines
+        exact mem_defines_of_mem (by simp [hit]) (enumItems_itemDefines hE it hit)
+    · by_cases hd : sn ∈ Schema.defaultScalars
+      · rw [hmap.builtins sn (List.mem_of_getElem? hsn) hd]
+        simp only [List.append_assoc]
+        exact builtin_resolved hd _ _
       · obtain ⟨it, hit, hname⟩ := scalarItems_defines hS hk hsn hd
-        refine .inr (.inr ⟨it, by simp [hit], ?_⟩)
-        rw [hname, hnorm]; rfl
+        rw [hmap.scalars sn (List.mem_of_getElem? hsn) hd, ← hname]
+        apply resolved_of_defines
+        exact mem_defines_of_mem (by simp [hit]) (scalarItems_itemDefines hS it hit)
     · have hmem : g ∈ sortNat u.fragments := (mem_sortNat _ _).mpr hg
       obtain ⟨its, hits, hfi⟩ := mapM_ok_of_mem hF g hmem
       obtain ⟨fr', hfr', hcalc⟩ := fragmentItems_ok hfi
@@ -787,6 +853,1143 @@ theorem response_mentions_resolved (c : Ctx) (op : Nat) (items : List Item)
       simp only [defines_append, List.mem_append]
       exact .inr hd
     · exact hd
+
+/-- **response items are resolved in the emitted module** (normalization `none`, `supplied` = the extern
+    enum names; the form of `inputs_resolved_in_module` / `variables_resolved_in_module`). -/
+theorem response_mentions_resolved (c : Ctx) (op : Nat) (items : List Item)
+    (hnorm : c.o.normalization = .none)
+    (h : responseForQuery c op = .ok items) :
+    ∃ u o F R, allUsedTypes c.s c.q op = .ok u ∧ c.q.operations[op]? = some o ∧
+      (sortNat u.fragments).mapM (fragmentItems c) = .ok F ∧ responseItems c o = .ok R ∧
+      (∀ it ∈ F.flatten ++ R, it ∈ items) ∧
+      ∀ it ∈ F.flatten ++ R, ∀ n ∈ Scope.itemMentions it, Scope.resolved items c.o.externEnums n = true := by
+  have := response_mentions_resolved_mapped c op items (NameMapOK.of_none hnorm) h
+  rwa [externSupplied_none hnorm] at this
+
+/-! ## 5. the whole module -/
+
+/-- what the consumer supplies: the extern enums (bare names) and, for every custom scalar of the schema,
+    a type at the path the scalar's alias points to (`<scalars module or super>::<Name>`) -/
+def moduleSupplied (c : Ctx) : List String :=
+  c.o.externEnums ++
+  (c.s.scalars.filter (fun n => !Schema.defaultScalars.contains n)).map (fun n =>
+    (c.o.scalarsModule.getD "super") ++ "::" ++ c.o.normalization.scalarName c.cs n)
+
+theorem scalarItems_mentions_supplied {c : Ctx} {u : UsedTypes} {S : List Item} (h : scalarItems c u = .ok S) :
+    ∀ it ∈ S, ∀ n ∈ Scope.itemMentions it, n ∈ moduleSupplied c := by
+  unfold scalarItems at h
+  obtain ⟨ns, hns, h⟩ := bind_ok h
+  simp only [pure, Except.pure, Except.ok.injEq] at h
+  subst h
+  intro it hit n hn
+  simp only [List.mem_map, List.mem_filter] at hit
+  obtain ⟨sn, ⟨hsn, hnd⟩, rfl⟩ := hit
+  simp only [Scope.itemMentions, Scope.leaf, List.mem_singleton] at hn
+  subst hn
+  obtain ⟨k, _, hk⟩ := mapM_ok_mem hns sn hsn
+  have hmem : sn ∈ c.s.scalars := List.mem_of_getElem? (getScalar_ok hk)
+  unfold moduleSupplied
+  apply List.mem_append_right
+  exact List.mem_map.mpr ⟨sn, List.mem_filter.mpr ⟨hmem, hnd⟩, rfl⟩
+
+theorem enumItems_mentions {c : Ctx} {u : UsedTypes} {E : List Item} (h : enumItems c u = .ok E) :
+    ∀ it ∈ E, Scope.itemMentions it = [] := by
+  unfold enumItems at h
+  obtain ⟨es, _, h⟩ := bind_ok h
+  simp only [pure, Except.pure, Except.ok.injEq] at h
+  subst h
+  intro it hit
+  simp only [List.mem_map] at hit
+  obtain ⟨e, _, rfl⟩ := hit
+  rfl
+
+/-- **every mention of every item of the emitted module is resolved** (first component of
+    `Scope.wellScoped`, see `C02.wellScoped_iff`): normalization `none`; `keyword_replace` is the identity
+    on the names of the schema's input types, scalars and enums (needed by the input / `Variables` items
+    only, see `keyword_input_name_mismatch`); the schema and query use input types in input positions only
+    (`OutputOnly`, `InputFieldsRelevant`, `hvars`).  The response items need none of these.
+    *Partial*: the other three components of `wellScoped` (no name defined twice, no duplicate member,
+    serde crate named) are not part of this statement — the first two are false in general
+    (`defines_dup_witness`). -/
+theorem module_well_scoped_partial (c : Ctx) (op : Nat) (items : List Item)
+    (hnorm : c.o.normalization = .none)
+    (hkwI : ∀ i ∈ c.s.inputs, keywordReplace i.name = i.name)
+    (hkwS : ∀ n ∈ c.s.scalars, keywordReplace n = n)
+    (hkwE : ∀ e ∈ c.s.enums, keywordReplace e.name = e.name)
+    (hwf : OutputOnly c.s c.q = true) (hrel : InputFieldsRelevant c.s = true)
+    (hvars : ∀ v ∈ c.q.opVariables op, Relevant v.ty.id)
+    (h : responseForQuery c op = .ok items) :
+    ∀ it ∈ items, ∀ n ∈ Scope.itemMentions it, Scope.resolved items (moduleSupplied c) n = true := by
+  have hsup : ∀ x ∈ c.o.externEnums, x ∈ moduleSupplied c := fun x hx => List.mem_append_left _ hx
+  obtain ⟨u1, o, F1, R1, hu1, ho1, hF1, hR1, _, hresp⟩ := response_mentions_resolved c op items hnorm h
+  obtain ⟨u2, I2, hu2, hI2, _, hinp⟩ := inputs_resolved_in_module c op items hnorm hkwI hwf hrel h
+  obtain ⟨V3, hV3, _, hvar⟩ := variables_resolved_in_module c op items hnorm hkwS hkwE hvars h
+  obtain ⟨u, S, E, F, I, V, o', R, hu, hS, hE, hF, hI, hV, ho, hR, hitems⟩ := responseForQuery_ok_full h
+  rw [hu] at hu1 hu2
+  cases hu1; cases hu2
+  rw [hF] at hF1; cases hF1
+  rw [hI] at hI2; cases hI2
+  rw [hV] at hV3; cases hV3
+  intro it hit n hn
+  rw [hitems] at hit
+  simp only [List.mem_append] at hit
+  rcases hit with (((((hit | hit) | hit) | hit) | hit) | hit) | hit
+  · -- built-in aliases
+    unfold Scope.resolved
+    simp only [Bool.or_eq_true, List.contains_iff_mem]
+    refine .inl (.inr ?_)
+    simp only [builtinAliases, List.mem_cons, List.not_mem_nil, or_false] at hit
+    rcases hit with rfl | rfl | rfl | rfl <;>
+      (simp only [Scope.itemMentions, Scope.leaf, List.mem_singleton] at hn; subst hn; simp [Scope.rustBuiltins])
+  · unfold Scope.resolved
+    simp only [Bool.or_eq_true, List.contains_iff_mem]
+    exact .inr (scalarItems_mentions_supplied hS it hit n hn)
+  · rw [enumItems_mentions hE it hit] at hn; cases hn
+  · exact resolved_mono_supplied hsup (hinp it hit n hn)
+  · exact resolved_mono_supplied hsup (hvar it hit n hn)
+  · exact resolved_mono_supplied hsup (hresp it (List.mem_append_left _ hit) n hn)
+  · have hoo : o = o' := by
+      rw [ho] at ho1; cases ho1; rfl
+    subst hoo
+    rw [hR] at hR1; cases hR1
+    exact resolved_mono_supplied hsup (hresp it (List.mem_append_right _ hit) n hn)
+
+/-- `module_well_scoped_partial` in the vocabulary of the executable check: the `undefined` component of
+    the scope report of the emitted module is empty -/
+theorem module_no_undefined_mentions (c : Ctx) (op : Nat) (items : List Item)
+    (hnorm : c.o.normalization = .none)
+    (hkwI : ∀ i ∈ c.s.inputs, keywordReplace i.name = i.name)
+    (hkwS : ∀ n ∈ c.s.scalars, keywordReplace n = n)
+    (hkwE : ∀ e ∈ c.s.enums, keywordReplace e.name = e.name)
+    (hwf : OutputOnly c.s c.q = true) (hrel : InputFieldsRelevant c.s = true)
+    (hvars : ∀ v ∈ c.q.opVariables op, Relevant v.ty.id)
+    (h : responseForQuery c op = .ok items) :
+    (Scope.report items (moduleSupplied c)).undefined = [] := by
+  have := module_well_scoped_partial c op items hnorm hkwI hkwS hkwE hwf hrel hvars h
+  simp only [Scope.report, Scope.undefinedMentions, List.filter_eq_nil_iff, Scope.mentions, List.mem_flatMap]
+  rintro n ⟨it, hit, hn⟩
+  simp [this it hit n hn]
+
+/-! ## 6. the names the response items define, computed from the selection tree -/
+
+/-- the type name used for a variant (`""` when the id is out of range: generation fails then) -/
+def tnOf (c : Ctx) (t : TypeId) : String := (c.s.typeName t).toOption.getD ""
+
+/-- the possible types of an abstract type (`[]` for a concrete one) -/
+def vtsOf (c : Ctx) (ty : TypeId) : List TypeId :=
+  match variantsOf c.s ty with
+  | .ok (some vts) => vts
+  | _ => []
+
+/-- does the emitted type carry variants (`rvariants` non-empty)? -/
+def hasVariants (c : Ctx) (ty : TypeId) : Bool :=
+  match variantsOf c.s ty with
+  | .ok (some vts) => !vts.isEmpty || c.o.otherVariant
+  | _ => false
+
+def isLoneSpread : List Sel → Bool
+  | [.spread _] => true
+  | _ => false
+
+/-- does this selection contribute a field to the struct of type `ty`? -/
+def selHasField (c : Ctx) (ty : TypeId) : Sel → Bool
+  | .field _ fid _ =>
+    match c.s.fields[fid]? with
+    | some sf => !(sf.deprecation.isSome && c.o.deprecation == .deny)
+    | none => false
+  | .spread g =>
+    match c.q.fragments[g]? with
+    | some fr => fr.on == ty
+    | none => false
+  | _ => false
+
+/-- is this selection attached to the variant `vt` of the abstract type `ty`? -/
+def selOnVariant (c : Ctx) (ty vt : TypeId) : Sel → Bool
+  | .inline t _ => t == vt
+  | .spread g =>
+    match c.q.fragments[g]? with
+    | some fr => fr.on != ty && fr.on == vt
+    | none => false
+  | _ => false
+
+/-- the names `renderType` defines -/
+def headNames (name : String) (hasF hasV : Bool) : List String :=
+  if hasF && hasV then [name, name ++ "On"] else [name]
+
+mutual
+  /-- names of the items the field loop emits for one selection -/
+  def selNames (c : Ctx) (pfx : String) : Sel → List String
+    | .field alias fid sub =>
+      match c.s.fields[fid]? with
+      | none => []
+      | some sf =>
+        match sf.ty.id with
+        | .enum _ => []
+        | .scalar _ => []
+        | .input _ => []
+        | t =>
+          let sname := pfx ++ c.cs.camel (alias.getD sf.name)
+          if isLoneSpread sub then [sname] else
+          headNames sname (sub.any (selHasField c t)) (hasVariants c t) ++
+          (vtsOf c t).flatMap (fun vt =>
+            if sub.any (selOnVariant c t vt) then (sname ++ "On" ++ tnOf c vt) :: inlsNames c sname vt sub else []) ++
+          selsNames c sname sub
+    | _ => []
+  def selsNames (c : Ctx) (pfx : String) : List Sel → List String
+    | [] => []
+    | x :: xs => selNames c pfx x ++ selsNames c pfx xs
+  /-- names of the nested items emitted for an inline fragment on the variant `vt` -/
+  def inlNames (c : Ctx) (pfx : String) (vt : TypeId) : Sel → List String
+    | .inline t sub =>
+      if t == vt then
+        (if isLoneSpread sub then [] else selsNames c (pfx ++ "On" ++ c.cs.camel (tnOf c t)) sub)
+      else []
+    | _ => []
+  def inlsNames (c : Ctx) (pfx : String) (vt : TypeId) : List Sel → List String
+    | [] => []
+    | x :: xs => inlNames c pfx vt x ++ inlsNames c pfx vt xs
+end
+
+/-- names of the items `calcSelection c _ name pfx ty sels` emits, computed from the selection tree -/
+def selectionNames (c : Ctx) (name pfx : String) (ty : TypeId) (sels : List Sel) : List String :=
+  if isLoneSpread sels then [name] else
+  headNames name (sels.any (selHasField c ty)) (hasVariants c ty) ++
+  (vtsOf c ty).flatMap (fun vt =>
+    if sels.any (selOnVariant c ty vt) then (pfx ++ "On" ++ tnOf c vt) :: inlsNames c pfx vt sels else []) ++
+  selsNames c pfx sels
+
+
+theorem tnOf_ok {c : Ctx} {t : TypeId} {tn : String} (h : c.s.typeName t = .ok tn) : tnOf c t = tn := by
+  simp [tnOf, h, Except.toOption]
+
+theorem isLoneSpread_false {sels : List Sel} (h : ∀ g, sels ≠ [Sel.spread g]) : isLoneSpread sels = false := by
+  unfold isLoneSpread
+  split
+  · rename_i g; exact absurd rfl (h g)
+  · rfl
+
+theorem renderField_isSome {c : Ctx} {g : Option String} {r ft : String} {quals : List Qual} {fl bx : Bool}
+    {dep : Option (Option String)} {o : Option RField}
+    (h : renderField c g r ft quals fl bx dep = .ok o) :
+    o.isSome = !(dep.isSome && c.o.deprecation == .deny) := by
+  unfold renderField at h
+  obtain ⟨ty, _, h⟩ := bind_ok h
+  cases dep <;> cases hd : c.o.deprecation <;>
+    simp only [hd, pure, Except.pure, Except.ok.injEq] at h <;> subst h <;> simp
+
+theorem defines_renderType (c : Ctx) (name : String) (fs : List RField) (vs : List RVariant) :
+    Scope.defines (renderType c name fs vs) = headNames name (!fs.isEmpty) (!vs.isEmpty) := by
+  unfold renderType headNames
+  cases hf : fs.isEmpty <;> cases hv : vs.isEmpty <;>
+    simp [Scope.defines, Scope.itemDefines, Item.name]
+
+/-- names of the nested items emitted for the selections attached to one variant -/
+def vselsNames (c : Ctx) (pfx : String) : List VariantSel → List String
+  | [] => []
+  | .inline t sub :: rest =>
+    (if isLoneSpread sub then [] else selsNames c (pfx ++ "On" ++ c.cs.camel (tnOf c t)) sub) ++ vselsNames c pfx rest
+  | .spread _ _ :: rest => vselsNames c pfx rest
+
+/-- names of the items the per-variant loop emits -/
+def variantsNames (c : Ctx) (pfx : String) (vsels : List VariantSel) (vts : List TypeId) : List String :=
+  vts.flatMap (fun vt =>
+    if (vsels.filter (fun v => v.typeId == vt)).isEmpty then []
+    else (pfx ++ "On" ++ tnOf c vt) :: vselsNames c pfx (vsels.filter (fun v => v.typeId == vt)))
+
+theorem selNames_composite {c : Ctx} {pfx : String} {a : Option String} {fid : Nat} {sub : List Sel}
+    {sf : StoredField} (hsf : c.s.fields[fid]? = some sf)
+    (h1 : ∀ e, sf.ty.id ≠ .enum e) (h2 : ∀ k, sf.ty.id ≠ .scalar k) (h3 : ∀ i, sf.ty.id ≠ .input i) :
+    selNames c pfx (.field a fid sub) =
+      selectionNames c (pfx ++ c.cs.camel (a.getD sf.name)) (pfx ++ c.cs.camel (a.getD sf.name)) sf.ty.id sub := by
+  rw [selNames.eq_1]
+  simp only [hsf]
+  rfl
+
+theorem filter_typeId_inline (t vt : TypeId) (sub : List Sel) (r : List VariantSel) :
+    (VariantSel.inline t sub :: r).filter (fun v => v.typeId == vt) =
+      if t == vt then .inline t sub :: r.filter (fun v => v.typeId == vt) else r.filter (fun v => v.typeId == vt) := by
+  rw [List.filter_cons]; rfl
+
+theorem filter_typeId_spread (g : Nat) (fr : RFragment) (vt : TypeId) (r : List VariantSel) :
+    (VariantSel.spread g fr :: r).filter (fun v => v.typeId == vt) =
+      if fr.on == vt then .spread g fr :: r.filter (fun v => v.typeId == vt) else r.filter (fun v => v.typeId == vt) := by
+  rw [List.filter_cons]; rfl
+
+/-- the selections attached to a variant, seen from the selection set -/
+theorem vsels_filter_spec (c : Ctx) (pfx : String) (ty vt : TypeId) :
+    ∀ (sels : List Sel) (vsels : List VariantSel), sels.filterMapM (variantSelOf c.q ty) = .ok vsels →
+      vselsNames c pfx (vsels.filter (fun v => v.typeId == vt)) = inlsNames c pfx vt sels ∧
+      (vsels.filter (fun v => v.typeId == vt)).isEmpty = !(sels.any (selOnVariant c ty vt))
+  | [], vsels, h => by
+    simp only [List.filterMapM_nil, pure, Except.pure, Except.ok.injEq] at h
+    subst h
+    simp [vselsNames, inlsNames]
+  | x :: xs, vsels, h => by
+    rw [List.filterMapM_cons] at h
+    obtain ⟨o, ho, h⟩ := bind_ok h
+    rw [inlsNames.eq_2, List.any_cons]
+    cases o with
+    | none =>
+      have ⟨ih1, ih2⟩ := vsels_filter_spec c pfx ty vt xs vsels h
+      have hx : inlNames c pfx vt x = [] ∧ selOnVariant c ty vt x = false := by
+        cases x with
+        | inline t sub => simp [variantSelOf, pure, Except.pure] at ho
+        | spread g =>
+          simp only [variantSelOf] at ho
+          obtain ⟨fr, hfr, ho⟩ := bind_ok ho
+          simp only [pure, Except.pure, Except.ok.injEq] at ho
+          split at ho
+          · rename_i heq
+            refine ⟨by simp [inlNames], ?_⟩
+            have : (fr.on != ty) = false := by simpa using heq
+            simp only [selOnVariant, getFragment_ok hfr, this, Bool.false_and]
+          · cases ho
+        | field a b c' => simp [inlNames, selOnVariant]
+        | typename => simp [inlNames, selOnVariant]
+      rw [hx.1, hx.2, ih1, ih2]
+      simp
+    | some v =>
+      simp only [] at h
+      obtain ⟨r, hr, h⟩ := bind_ok h
+      simp only [pure, Except.pure, Except.ok.injEq] at h
+      subst h
+      have ⟨ih1, ih2⟩ := vsels_filter_spec c pfx ty vt xs r hr
+      cases x with
+      | inline t sub =>
+        simp only [variantSelOf, pure, Except.pure, Except.ok.injEq, Option.some.injEq] at ho
+        subst ho
+        rw [filter_typeId_inline, inlNames.eq_1, show selOnVariant c ty vt (.inline t sub) = (t == vt) from rfl]
+        cases htv : (t == vt)
+        · simp [ih1, ih2]
+        · simp [vselsNames, ih1]
+      | spread g =>
+        simp only [variantSelOf] at ho
+        obtain ⟨fr, hfr, ho⟩ := bind_ok ho
+        simp only [pure, Except.pure, Except.ok.injEq] at ho
+        split at ho
+        · cases ho
+        · rename_i hne
+          simp only [Option.some.injEq] at ho
+          subst ho
+          have hne' : (fr.on != ty) = true := by simpa using hne
+          have hsel : selOnVariant c ty vt (.spread g) = (fr.on == vt) := by
+            simp only [selOnVariant, getFragment_ok hfr, hne', Bool.true_and]
+          have hinl : inlNames c pfx vt (.spread g) = [] := by simp [inlNames]
+          rw [filter_typeId_spread, hsel, hinl]
+          cases htv : (fr.on == vt)
+          · simp [ih1, ih2]
+          · simp [vselsNames, ih1]
+      | field a b c' => simp [variantSelOf, pure, Except.pure] at ho
+      | typename => simp [variantSelOf, pure, Except.pure] at ho
+
+section Names
+variable (c : Ctx)
+
+def NStmt1 (fuel : Nat) : Prop := ∀ name pfx ty sels items,
+  calcSelection c fuel name pfx ty sels = .ok items → Scope.defines items = selectionNames c name pfx ty sels
+def NStmt2 (fuel : Nat) : Prop := ∀ name pfx vsels vts vs items,
+  calcVariants c fuel name pfx vsels vts = .ok (vs, items) →
+  Scope.defines items = variantsNames c pfx vsels vts ∧ vs.length = vts.length
+def NStmt3 (fuel : Nat) : Prop := ∀ sname pfx vt mine fs items al,
+  calcVariantSels c fuel sname pfx vt mine = .ok (fs, items, al) →
+  Scope.defines items = vselsNames c pfx mine ∧ ∀ a ∈ al, Scope.itemDefines a = some sname
+def NStmt4 (fuel : Nat) : Prop := ∀ pfx ty sels fs items,
+  calcFields c fuel pfx ty sels = .ok (fs, items) →
+  Scope.defines items = selsNames c pfx sels ∧ fs.isEmpty = !(sels.any (selHasField c ty))
+
+variable {c}
+
+theorem isEmpty_toList_append {α} (o : Option α) (l : List α) :
+    (o.toList ++ l).isEmpty = (!o.isSome && l.isEmpty) := by
+  cases o <;> simp
+
+theorem nstep4 (f : Nat) (H1 : NStmt1 c f) (H4 : NStmt4 c f) : NStmt4 c (f + 1) := by
+  intro pfx ty sels fs items h
+  cases sels with
+  | nil =>
+    rw [calcFields.eq_2 _ _ _ _ (by omega)] at h
+    simp only [pure, Except.pure, Except.ok.injEq, Prod.mk.injEq] at h
+    obtain ⟨rfl, rfl⟩ := h
+    simp [selsNames]
+  | cons x rest =>
+    rw [selsNames.eq_2, List.any_cons]
+    cases x with
+    | field a fid sub =>
+      obtain ⟨sf, fld, its, fs', items', hsf, hr, rfl, rfl, hstep⟩ := calcFields_field_ok h
+      have ⟨ih1, ih2⟩ := H4 pfx ty rest fs' items' hr
+      rw [defines_append, ih1, isEmpty_toList_append, ih2]
+      have hsel : selHasField c ty (.field a fid sub) = !(sf.deprecation.isSome && c.o.deprecation == .deny) := by
+        simp only [selHasField, hsf]
+      rw [hsel]
+      rcases hstep with ⟨e, en, he, _, rfl, hfld⟩ | ⟨k, sn, hk, _, rfl, hfld⟩ | ⟨h1, h2, h3, hfld, hits⟩
+      · rw [renderField_isSome hfld, selNames.eq_1]
+        simp [hsf, he]
+      · rw [renderField_isSome hfld, selNames.eq_1]
+        simp [hsf, hk]
+      · rw [renderField_isSome hfld, selNames_composite hsf h1 h2 h3, H1 _ _ _ _ _ hits]
+        simp
+    | spread g =>
+      obtain ⟨fr, fs', hfr, hr, hfs⟩ := calcFields_spread_ok h
+      have ⟨ih1, ih2⟩ := H4 pfx ty rest fs' items hr
+      have hsel : selHasField c ty (.spread g) = (fr.on == ty) := by simp only [selHasField, hfr]
+      rw [hsel, ih1, selNames.eq_2 _ _ _ (by simp)]
+      refine ⟨by simp, ?_⟩
+      rcases hfs with ⟨hc, rfl⟩ | ⟨hc, fld, hfld, rfl⟩
+      · have : (fr.on == ty) = false := by simpa using hc
+        rw [ih2, this]; simp
+      · have : (fr.on == ty) = true := by simpa using hc
+        rw [isEmpty_toList_append, renderField_isSome hfld, this]; simp
+    | inline t sub =>
+      rw [calcFields.eq_5 _ _ _ _ _ _ (by simp) (by simp)] at h
+      have ⟨ih1, ih2⟩ := H4 pfx ty rest fs items h
+      rw [ih1, ih2, selNames.eq_2 _ _ _ (by simp)]
+      simp [selHasField]
+    | typename =>
+      rw [calcFields.eq_5 _ _ _ _ _ _ (by simp) (by simp)] at h
+      have ⟨ih1, ih2⟩ := H4 pfx ty rest fs items h
+      rw [ih1, ih2, selNames.eq_2 _ _ _ (by simp)]
+      simp [selHasField]
+
+theorem nstep3 (f : Nat) (H3 : NStmt3 c f) (H4 : NStmt4 c f) : NStmt3 c (f + 1) := by
+  intro sname pfx vt mine fs items al h
+  cases mine with
+  | nil =>
+    rw [calcVariantSels.eq_2 _ _ _ _ _ (by omega)] at h
+    simp only [pure, Except.pure, Except.ok.injEq, Prod.mk.injEq] at h
+    obtain ⟨rfl, rfl, rfl⟩ := h
+    exact ⟨rfl, fun a ha => (by cases ha)⟩
+  | cons x rest =>
+    cases x with
+    | inline t sub =>
+      obtain ⟨tn, fs0, items0, al0, fs', items', al', htn, hr, rfl, rfl, rfl, hstep⟩ := calcVariantSels_inline_ok h
+      have ⟨ih1, ih2⟩ := H3 sname pfx vt rest fs' items' al' hr
+      rw [defines_append, ih1, vselsNames, tnOf_ok htn]
+      rcases hstep with ⟨g, fr, rfl, _, rfl, rfl, rfl⟩ | ⟨hns, hfl, rfl⟩
+      · refine ⟨by simp [isLoneSpread], fun a ha => ?_⟩
+        rcases List.mem_append.mp ha with ha | ha
+        · simp only [List.mem_singleton] at ha
+          subst ha; exact aliasItem_defines _ _ _
+        · exact ih2 a ha
+      · rw [isLoneSpread_false hns, (H4 _ _ _ _ _ hfl).1]
+        exact ⟨by simp, fun a ha => ih2 a (by simpa using ha)⟩
+    | spread g fr =>
+      obtain ⟨fld, fs', _, hr, rfl⟩ := calcVariantSels_spread_ok h
+      have ⟨ih1, ih2⟩ := H3 sname pfx vt rest fs' items al hr
+      exact ⟨by rw [ih1, vselsNames], ih2⟩
+
+theorem nstep2 (f : Nat) (H2 : NStmt2 c f) (H3 : NStmt3 c f) : NStmt2 c (f + 1) := by
+  intro name pfx vsels vts vs items h
+  cases vts with
+  | nil =>
+    rw [calcVariants.eq_2 _ _ _ _ _ (by omega)] at h
+    simp only [pure, Except.pure, Except.ok.injEq, Prod.mk.injEq] at h
+    obtain ⟨rfl, rfl⟩ := h
+    exact ⟨rfl, rfl⟩
+  | cons vt rest =>
+    obtain ⟨vname, thisV, thisItems, vs', items', hvn, hr, rfl, rfl, hstep⟩ := calcVariants_ok h
+    have ⟨ih1, ih2⟩ := H2 name pfx vsels rest vs' items' hr
+    refine ⟨?_, by simp [ih2]⟩
+    rw [defines_append, ih1]
+    unfold variantsNames
+    rw [List.flatMap_cons, tnOf_ok hvn]
+    congr 1
+    rcases hstep with ⟨hm, _, rfl⟩ | ⟨hm, _, hstep⟩
+    · simp [hm]
+    · have hne : (vsels.filter (fun v => v.typeId == vt)).isEmpty = false := by
+        cases hmm : vsels.filter (fun v => v.typeId == vt) with
+        | nil => exact absurd hmm hm
+        | cons _ _ => rfl
+      rw [hne]
+      simp only [Bool.false_eq_true, if_false]
+      rcases hstep with ⟨g, fr, hmine, rfl⟩ | ⟨r, hr0, hstep⟩
+      · rw [hmine]
+        simp [Scope.defines, aliasItem_defines, vselsNames]
+      · obtain ⟨r1, r2⟩ := H3 _ _ _ _ r.1 r.2.1 r.2.2 hr0
+        rcases hstep with ⟨a, tl, hal, rfl⟩ | ⟨_, rfl⟩
+        · have := r2 a (by rw [hal]; exact List.mem_cons_self)
+          rw [defines_cons, this, r1]; rfl
+        · rw [defines_append, defines_renderType, r1]
+          simp [headNames]
+
+theorem length_pos_of_ne_nil_bool {α} (l : List α) : (!l.isEmpty) = decide (0 < l.length) := by
+  cases l <;> simp
+
+theorem nstep1 (f : Nat) (H2 : NStmt2 c f) (H4 : NStmt4 c f) : NStmt1 c (f + 1) := by
+  intro name pfx ty sels items h
+  by_cases hsp : ∃ g, sels = [Sel.spread g]
+  · obtain ⟨g, rfl⟩ := hsp
+    obtain ⟨fr, _, rfl⟩ := calcSelection_single_ok h
+    simp [Scope.defines, aliasItem_defines, selectionNames, isLoneSpread]
+  · obtain ⟨rv, vi, rf, fi, hvp, hfl, rfl⟩ := calcSelection_ok (fun g hg => hsp ⟨g, hg⟩) h
+    have ⟨f1, f2⟩ := H4 _ _ _ _ _ hfl
+    unfold selectionNames
+    rw [isLoneSpread_false (fun g hg => hsp ⟨g, hg⟩)]
+    simp only [Bool.false_eq_true, if_false]
+    rw [defines_append, defines_append, defines_renderType, f1, f2, Bool.not_not]
+    rcases hvp with ⟨hv, rfl, rfl⟩ | ⟨vts, vsels, r, hv, hvs, hr, rfl, rfl⟩
+    · simp [hasVariants, vtsOf, hv]
+    · have ⟨v1, v2⟩ := H2 _ _ _ _ r.1 r.2 hr
+      have hV : (!(r.1 ++ if c.o.otherVariant = true then [({ name := "Unknown", other := true } : RVariant)] else []).isEmpty)
+          = hasVariants c ty := by
+        simp only [hasVariants, hv]
+        cases hvts : vts with
+        | nil =>
+          have : r.1 = [] := List.length_eq_zero_iff.mp (by rw [v2, hvts]; rfl)
+          rw [this]
+          cases c.o.otherVariant <;> simp
+        | cons a l =>
+          have : r.1 ≠ [] := by
+            intro h0
+            rw [h0, hvts] at v2
+            simp at v2
+          cases hr1 : r.1 with
+          | nil => exact absurd hr1 this
+          | cons _ _ => simp
+      rw [hV, v1]
+      congr 2
+      unfold variantsNames
+      simp only [vtsOf, hv]
+      congr 1
+      funext vt
+      have ⟨e1, e2⟩ := vsels_filter_spec c pfx ty vt sels vsels hvs
+      rw [e1, e2]
+      cases sels.any (selOnVariant c ty vt) <;> simp
+
+/-- **the names defined by the items of `calcSelection`** are the names computed from the selection tree
+    (same order, same multiplicity) -/
+theorem calc_names : ∀ fuel, NStmt1 c fuel ∧ NStmt2 c fuel ∧ NStmt3 c fuel ∧ NStmt4 c fuel := by
+  intro fuel
+  induction fuel with
+  | zero =>
+    refine ⟨?_, ?_, ?_, ?_⟩
+    · intro _ _ _ _ _ h; rw [calcSelection.eq_1] at h; cases h
+    · intro _ _ _ _ _ _ h; rw [calcVariants.eq_1] at h; cases h
+    · intro _ _ _ _ _ _ _ h; rw [calcVariantSels.eq_1] at h; cases h
+    · intro _ _ _ _ _ h; rw [calcFields.eq_1] at h; cases h
+  | succ f ih =>
+    obtain ⟨H1, H2, H3, H4⟩ := ih
+    exact ⟨nstep1 f H2 H4, nstep2 f H2 H3, nstep3 f H3 H4, nstep4 f H1 H4⟩
+
+end Names
+
+/-! ### the names the whole module defines -/
+
+theorem defines_eq_map_name {l : List Item} (h : ∀ it ∈ l, Scope.itemDefines it = some it.name) :
+    Scope.defines l = l.map Item.name := by
+  induction l with
+  | nil => rfl
+  | cons a l ih =>
+    rw [defines_cons, h a List.mem_cons_self, ih (fun it hit => h it (List.mem_cons_of_mem _ hit))]
+    rfl
+
+theorem mapM_eq_filterMap {ε α β : Type} {f : α → Except ε β} {g : α → Option β}
+    (hfg : ∀ a b, f a = .ok b → g a = some b) :
+    ∀ {l : List α} {r : List β}, l.mapM f = .ok r → r = l.filterMap g
+  | [], r, h => by
+    simp only [List.mapM_nil, pure, Except.pure, Except.ok.injEq] at h
+    subst h; rfl
+  | a :: l, r, h => by
+    rw [List.mapM_cons] at h
+    obtain ⟨b, hb, h⟩ := bind_ok h
+    obtain ⟨r', hr', h⟩ := bind_ok h
+    simp only [pure, Except.pure, Except.ok.injEq] at h
+    subst h
+    rw [List.filterMap_cons, hfg a b hb, mapM_eq_filterMap hfg hr']
+
+theorem mapM_map_eq {ε α β γ : Type} {f : α → Except ε β} {g : α → γ} {k : β → γ}
+    (hfg : ∀ a b, f a = .ok b → k b = g a) :
+    ∀ {l : List α} {r : List β}, l.mapM f = .ok r → r.map k = l.map g
+  | [], r, h => by
+    simp only [List.mapM_nil, pure, Except.pure, Except.ok.injEq] at h
+    subst h; rfl
+  | a :: l, r, h => by
+    rw [List.mapM_cons] at h
+    obtain ⟨b, hb, h⟩ := bind_ok h
+    obtain ⟨r', hr', h⟩ := bind_ok h
+    simp only [pure, Except.pure, Except.ok.injEq] at h
+    subst h
+    rw [List.map_cons, List.map_cons, hfg a b hb, mapM_map_eq hfg hr']
+
+theorem mapM_defines_flatten {ε α : Type} {f : α → Except ε (List Item)} {n : α → List String}
+    (hfn : ∀ a its, f a = .ok its → Scope.defines its = n a) :
+    ∀ {l : List α} {F : List (List Item)}, l.mapM f = .ok F → Scope.defines F.flatten = l.flatMap n
+  | [], F, h => by
+    simp only [List.mapM_nil, pure, Except.pure, Except.ok.injEq] at h
+    subst h; rfl
+  | a :: l, F, h => by
+    rw [List.mapM_cons] at h
+    obtain ⟨b, hb, h⟩ := bind_ok h
+    obtain ⟨r', hr', h⟩ := bind_ok h
+    simp only [pure, Except.pure, Except.ok.injEq] at h
+    subst h
+    rw [List.flatten_cons, defines_append, hfn a b hb, mapM_defines_flatten hfn hr', List.flatMap_cons]
+
+/-- aliases of the used custom scalars, in id order -/
+def scalarNames (c : Ctx) (u : UsedTypes) : List String :=
+  (((sortNat (u.types.filterMap TypeId.asScalar?)).filterMap (fun k => c.s.scalars[k]?)).filter
+    (fun n => !Schema.defaultScalars.contains n)).map (c.o.normalization.scalarName c.cs)
+
+/-- the used enums that are not extern, in id order -/
+def enumNames (c : Ctx) (u : UsedTypes) : List String :=
+  (((sortNat (u.types.filterMap TypeId.asEnum?)).filterMap (fun k => c.s.enums[k]?)).filter
+    (fun e => !c.o.externEnums.contains e.name)).map (fun e => c.o.normalization.enumName c.cs e.name)
+
+/-- the used input types, in id order -/
+def inputNames (c : Ctx) (u : UsedTypes) : List String :=
+  (c.s.inputs.zipIdx.filter (fun (x : StoredInput × Nat) => u.types.contains (.input x.2))).map
+    (fun x => keywordReplace (c.o.normalization.inputName c.cs x.1.name))
+
+/-- the items of a used fragment -/
+def fragmentNames (c : Ctx) (g : Nat) : List String :=
+  match c.q.fragments[g]? with
+  | some fr => selectionNames c fr.name (c.cs.camel fr.name) fr.on fr.sels
+  | none => []
+
+/-- **every name the emitted module defines**, computed from the schema, the used set and the selection
+    trees: the four built-in aliases, the custom scalars, the enums, the input types, `Variables`, the
+    fragment structs with their path-named nested types, `ResponseData` with its path-named nested types -/
+def moduleNames (c : Ctx) (u : UsedTypes) (o : ROperation) : List String :=
+  ["Boolean", "Float", "Int", "ID"] ++ scalarNames c u ++ enumNames c u ++ inputNames c u ++ ["Variables"] ++
+  (sortNat u.fragments).flatMap (fragmentNames c) ++
+  selectionNames c "ResponseData" (c.cs.camel o.name) (.object o.objectId) o.sels
+
+/-- the decidable no-clash predicate: the names of `moduleNames` are pairwise distinct -/
+def NoClash (c : Ctx) (op : Nat) : Bool :=
+  match allUsedTypes c.s c.q op, c.q.operations[op]? with
+  | .ok u, some o => decide (moduleNames c u o).Nodup
+  | _, _ => true
+
+theorem scalarItems_names {c : Ctx} {u : UsedTypes} {S : List Item} (h : scalarItems c u = .ok S) :
+    Scope.defines S = scalarNames c u := by
+  rw [defines_eq_map_name (scalarItems_itemDefines h)]
+  unfold scalarItems at h
+  obtain ⟨ns, hns, h⟩ := bind_ok h
+  simp only [pure, Except.pure, Except.ok.injEq] at h
+  subst h
+  rw [mapM_eq_filterMap (g := fun k => c.s.scalars[k]?) (fun a b hb => getScalar_ok hb) hns]
+  simp only [scalarNames, List.map_map]
+  rfl
+
+theorem enumItems_names {c : Ctx} {u : UsedTypes} {E : List Item} (h : enumItems c u = .ok E) :
+    Scope.defines E = enumNames c u := by
+  rw [defines_eq_map_name (enumItems_itemDefines h)]
+  unfold enumItems at h
+  obtain ⟨es, hes, h⟩ := bind_ok h
+  simp only [pure, Except.pure, Except.ok.injEq] at h
+  subst h
+  rw [mapM_eq_filterMap (g := fun k => c.s.enums[k]?) (fun a b hb => getEnum_ok hb) hes]
+  simp only [enumNames, List.map_map]
+  rfl
+
+theorem inputItems_names {c : Ctx} {u : UsedTypes} {I : List Item} (h : inputItems c u = .ok I) :
+    Scope.defines I = inputNames c u := by
+  rw [defines_eq_map_name (inputItems_itemDefines h)]
+  unfold inputItems at h
+  exact mapM_map_eq (g := fun (x : StoredInput × Nat) => keywordReplace (c.o.normalization.inputName c.cs x.1.name))
+    (fun a b hb => inputItem_name hb) h
+
+theorem variablesItems_names {c : Ctx} {op : Nat} {V : List Item} (h : variablesItems c op = .ok V) :
+    Scope.defines V = ["Variables"] := by
+  unfold variablesItems at h
+  simp only [] at h
+  split at h
+  · simp only [pure, Except.pure, Except.ok.injEq] at h
+    subst h; rfl
+  · obtain ⟨fs, _, h⟩ := bind_ok h
+    obtain ⟨dfl, _, h⟩ := bind_ok h
+    simp only [pure, Except.pure, Except.ok.injEq] at h
+    subst h; rfl
+
+theorem fragmentItems_names {c : Ctx} {g : Nat} {its : List Item} (h : fragmentItems c g = .ok its) :
+    Scope.defines its = fragmentNames c g := by
+  obtain ⟨fr, hfr, hcalc⟩ := fragmentItems_ok h
+  simp only [fragmentNames, hfr]
+  exact (calc_names _).1 _ _ _ _ _ hcalc
+
+/-- **the names the emitted module defines** are exactly `moduleNames` (same order, same multiplicity);
+    no hypothesis -/
+theorem module_defines_eq (c : Ctx) (op : Nat) (items : List Item) (h : responseForQuery c op = .ok items) :
+    ∃ u o, allUsedTypes c.s c.q op = .ok u ∧ c.q.operations[op]? = some o ∧
+      Scope.defines items = moduleNames c u o := by
+  obtain ⟨u, S, E, F, I, V, o, R, hu, hS, hE, hF, hI, hV, ho, hR, rfl⟩ := responseForQuery_ok_full h
+  refine ⟨u, o, hu, ho, ?_⟩
+  unfold responseItems at hR
+  simp only [defines_append, moduleNames]
+  rw [scalarItems_names hS, enumItems_names hE, inputItems_names hI, variablesItems_names hV,
+    mapM_defines_flatten (fun a its ha => fragmentItems_names ha) hF, (calc_names _).1 _ _ _ _ _ hR]
+  rfl
+
+/-- **no name is defined twice** (second component of `Scope.wellScoped`) exactly when the decidable
+    `NoClash` holds: the built-in aliases, scalar / enum / input names, `Variables`, fragment names and
+    the path-concatenated names of all nested response types are pairwise distinct -/
+theorem defines_nodup_iff (c : Ctx) (op : Nat) (items : List Item) (h : responseForQuery c op = .ok items) :
+    (Scope.defines items).Nodup ↔ NoClash c op = true := by
+  obtain ⟨u, o, hu, ho, hd⟩ := module_defines_eq c op items h
+  unfold NoClash
+  rw [hd]
+  simp only [hu, ho, decide_eq_true_eq]
+
+theorem defines_nodup (c : Ctx) (op : Nat) (items : List Item) (h : responseForQuery c op = .ok items)
+    (hnc : NoClash c op = true) : (Scope.defines items).Nodup :=
+  (defines_nodup_iff c op items h).mpr hnc
+
+/-! ## 7. every response item is an alias or the rendering of one expanded type; the serde crate is named -/
+
+section Shape
+variable (c : Ctx) (P : Item → Prop)
+
+def PStmt1 (fuel : Nat) : Prop := ∀ name pfx ty sels items,
+  calcSelection c fuel name pfx ty sels = .ok items → ∀ it ∈ items, P it
+def PStmt2 (fuel : Nat) : Prop := ∀ name pfx vsels vts vs items,
+  calcVariants c fuel name pfx vsels vts = .ok (vs, items) → ∀ it ∈ items, P it
+def PStmt3 (fuel : Nat) : Prop := ∀ sname pfx vt mine fs items al,
+  calcVariantSels c fuel sname pfx vt mine = .ok (fs, items, al) → (∀ it ∈ items, P it) ∧ ∀ it ∈ al, P it
+def PStmt4 (fuel : Nat) : Prop := ∀ pfx ty sels fs items,
+  calcFields c fuel pfx ty sels = .ok (fs, items) → ∀ it ∈ items, P it
+
+variable {c P}
+
+/-- **shape of the response items**: a property that holds for every alias item and for every item
+    `renderType` can produce holds for every item of the `calc*` block -/
+theorem calc_shape (hA : ∀ n t b, P (aliasItem n t b)) (hR : ∀ n fs vs, ∀ it ∈ renderType c n fs vs, P it) :
+    ∀ fuel, PStmt1 c P fuel ∧ PStmt2 c P fuel ∧ PStmt3 c P fuel ∧ PStmt4 c P fuel := by
+  intro fuel
+  induction fuel with
+  | zero =>
+    refine ⟨?_, ?_, ?_, ?_⟩
+    · intro _ _ _ _ _ h; rw [calcSelection.eq_1] at h; cases h
+    · intro _ _ _ _ _ _ h; rw [calcVariants.eq_1] at h; cases h
+    · intro _ _ _ _ _ _ _ h; rw [calcVariantSels.eq_1] at h; cases h
+    · intro _ _ _ _ _ h; rw [calcFields.eq_1] at h; cases h
+  | succ f ih =>
+    obtain ⟨H1, H2, H3, H4⟩ := ih
+    refine ⟨?_, ?_, ?_, ?_⟩
+    · intro name pfx ty sels items h
+      by_cases hsp : ∃ g, sels = [Sel.spread g]
+      · obtain ⟨g, rfl⟩ := hsp
+        obtain ⟨fr, _, rfl⟩ := calcSelection_single_ok h
+        intro it hit
+        simp only [List.mem_singleton] at hit
+        subst hit; exact hA _ _ _
+      · obtain ⟨rv, vi, rf, fi, hvp, hfl, rfl⟩ := calcSelection_ok (fun g hg => hsp ⟨g, hg⟩) h
+        intro it hit
+        simp only [List.mem_append] at hit
+        rcases hit with (hit | hit) | hit
+        · exact hR _ _ _ it hit
+        · rcases hvp with ⟨_, _, rfl⟩ | ⟨vts, vsels, r, _, _, hr, _, rfl⟩
+          · cases hit
+          · exact H2 _ _ _ _ r.1 r.2 hr it hit
+        · exact H4 _ _ _ _ _ hfl it hit
+    · intro name pfx vsels vts vs items h
+      cases vts with
+      | nil =>
+        rw [calcVariants.eq_2 _ _ _ _ _ (by omega)] at h
+        simp only [pure, Except.pure, Except.ok.injEq, Prod.mk.injEq] at h
+        obtain ⟨_, rfl⟩ := h
+        intro it hit; cases hit
+      | cons vt rest =>
+        obtain ⟨vname, thisV, thisItems, vs', items', _, hr, rfl, rfl, hstep⟩ := calcVariants_ok h
+        intro it hit
+        rcases List.mem_append.mp hit with hit | hit
+        · rcases hstep with ⟨_, _, rfl⟩ | ⟨_, _, hstep⟩
+          · cases hit
+          · rcases hstep with ⟨g, fr, _, rfl⟩ | ⟨r, hr0, hstep⟩
+            · simp only [List.mem_singleton] at hit
+              subst hit; exact hA _ _ _
+            · obtain ⟨r1, r2⟩ := H3 _ _ _ _ r.1 r.2.1 r.2.2 hr0
+              rcases hstep with ⟨a, tl, hal, rfl⟩ | ⟨_, rfl⟩
+              · rcases List.mem_cons.mp hit with rfl | hit
+                · exact r2 _ (by rw [hal]; exact List.mem_cons_self)
+                · exact r1 it hit
+              · rcases List.mem_append.mp hit with hit | hit
+                · exact hR _ _ _ it hit
+                · exact r1 it hit
+        · exact H2 _ _ _ _ _ _ hr it hit
+    · intro sname pfx vt mine fs items al h
+      cases mine with
+      | nil =>
+        rw [calcVariantSels.eq_2 _ _ _ _ _ (by omega)] at h
+        simp only [pure, Except.pure, Except.ok.injEq, Prod.mk.injEq] at h
+        obtain ⟨_, rfl, rfl⟩ := h
+        exact ⟨fun it hit => (by cases hit), fun it hit => (by cases hit)⟩
+      | cons x rest =>
+        cases x with
+        | inline t sub =>
+          obtain ⟨tn, fs0, items0, al0, fs', items', al', _, hr, rfl, rfl, rfl, hstep⟩ := calcVariantSels_inline_ok h
+          have ⟨ih1, ih2⟩ := H3 _ _ _ _ _ _ _ hr
+          rcases hstep with ⟨g, fr, _, _, _, rfl, rfl⟩ | ⟨_, hfl, rfl⟩
+          · refine ⟨fun it hit => ih1 it (by simpa using hit), fun it hit => ?_⟩
+            rcases List.mem_append.mp hit with hit | hit
+            · simp only [List.mem_singleton] at hit
+              subst hit; exact hA _ _ _
+            · exact ih2 it hit
+          · refine ⟨fun it hit => ?_, fun it hit => ih2 it (by simpa using hit)⟩
+            rcases List.mem_append.mp hit with hit | hit
+            · exact H4 _ _ _ _ _ hfl it hit
+            · exact ih1 it hit
+        | spread g fr =>
+          obtain ⟨fld, fs', _, hr, rfl⟩ := calcVariantSels_spread_ok h
+          exact H3 _ _ _ _ _ _ _ hr
+    · intro pfx ty sels fs items h
+      cases sels with
+      | nil =>
+        rw [calcFields.eq_2 _ _ _ _ (by omega)] at h
+        simp only [pure, Except.pure, Except.ok.injEq, Prod.mk.injEq] at h
+        obtain ⟨_, rfl⟩ := h
+        intro it hit; cases hit
+      | cons x rest =>
+        cases x with
+        | field a fid sub =>
+          obtain ⟨sf, fld, its, fs', items', _, hr, rfl, rfl, hstep⟩ := calcFields_field_ok h
+          intro it hit
+          rcases List.mem_append.mp hit with hit | hit
+          · rcases hstep with ⟨_, _, _, _, rfl, _⟩ | ⟨_, _, _, _, rfl, _⟩ | ⟨_, _, _, _, hits⟩
+            · cases hit
+            · cases hit
+            · exact H1 _ _ _ _ _ hits it hit
+          · exact H4 _ _ _ _ _ hr it hit
+        | spread g =>
+          obtain ⟨fr, fs', _, hr, _⟩ := calcFields_spread_ok h
+          exact H4 _ _ _ _ _ hr
+        | inline t sub =>
+          rw [calcFields.eq_5 _ _ _ _ _ _ (by simp) (by simp)] at h
+          exact H4 _ _ _ _ _ h
+        | typename =>
+          rw [calcFields.eq_5 _ _ _ _ _ _ (by simp) (by simp)] at h
+          exact H4 _ _ _ _ _ h
+
+end Shape
+
+theorem renderType_serde (c : Ctx) (n : String) (fs : List RField) (vs : List RVariant) :
+    ∀ it ∈ renderType c n fs vs, Scope.missingSerdeCrate it = false := by
+  intro it hit
+  unfold renderType at hit
+  split at hit
+  · simp only [List.mem_singleton] at hit
+    subst hit; simp [Scope.missingSerdeCrate, Ctx.serdeCrate]
+  · split at hit
+    · simp only [List.mem_singleton] at hit
+      subst hit; simp [Scope.missingSerdeCrate, Ctx.serdeCrate]
+    · simp only [List.mem_cons, List.not_mem_nil, or_false] at hit
+      rcases hit with rfl | rfl <;> simp [Scope.missingSerdeCrate, Ctx.serdeCrate]
+
+theorem inputItem_serde {c : Ctx} {i : StoredInput} {it : Item} (h : inputItem c i = .ok it) :
+    Scope.missingSerdeCrate it = false := by
+  unfold inputItem at h
+  split at h
+  · obtain ⟨vs, _, h⟩ := bind_ok h
+    simp only [pure, Except.pure, Except.ok.injEq] at h
+    subst h; simp [Scope.missingSerdeCrate, Ctx.serdeCrate]
+  · obtain ⟨fs, _, h⟩ := bind_ok h
+    simp only [pure, Except.pure, Except.ok.injEq] at h
+    subst h; simp [Scope.missingSerdeCrate, Ctx.serdeCrate]
+
+/-- **every item of the emitted module that carries a serde derive names the serde crate** (fourth
+    component of `Scope.wellScoped`); no hypothesis -/
+theorem module_serde_crate (c : Ctx) (op : Nat) (items : List Item) (h : responseForQuery c op = .ok items) :
+    ∀ it ∈ items, Scope.missingSerdeCrate it = false := by
+  obtain ⟨u, S, E, F, I, V, o, R, hu, hS, hE, hF, hI, hV, ho, hR, rfl⟩ := responseForQuery_ok_full h
+  have hcalc := fun fuel => (calc_shape (c := c) (P := fun it => Scope.missingSerdeCrate it = false)
+    (fun n t b => by cases b <;> rfl) (renderType_serde c) fuel).1
+  intro it hit
+  simp only [List.mem_append] at hit
+  rcases hit with (((((hit | hit) | hit) | hit) | hit) | hit) | hit
+  · simp only [builtinAliases, List.mem_cons, List.not_mem_nil, or_false] at hit
+    rcases hit with rfl | rfl | rfl | rfl <;> rfl
+  · unfold scalarItems at hS
+    obtain ⟨ns, _, hS⟩ := bind_ok hS
+    simp only [pure, Except.pure, Except.ok.injEq] at hS
+    subst hS
+    simp only [List.mem_map] at hit
+    obtain ⟨n, _, rfl⟩ := hit
+    rfl
+  · unfold enumItems at hE
+    obtain ⟨es, _, hE⟩ := bind_ok hE
+    simp only [pure, Except.pure, Except.ok.injEq] at hE
+    subst hE
+    simp only [List.mem_map] at hit
+    obtain ⟨e, _, rfl⟩ := hit
+    rfl
+  · unfold inputItems at hI
+    obtain ⟨x, _, hx⟩ := mapM_ok_mem hI it hit
+    exact inputItem_serde hx
+  · unfold variablesItems at hV
+    simp only [] at hV
+    split at hV
+    · simp only [pure, Except.pure, Except.ok.injEq] at hV
+      subst hV
+      simp only [List.mem_singleton] at hit
+      subst hit; simp [Scope.missingSerdeCrate, Ctx.serdeCrate]
+    · obtain ⟨fs, _, hV⟩ := bind_ok hV
+      obtain ⟨dfl, _, hV⟩ := bind_ok hV
+      simp only [pure, Except.pure, Except.ok.injEq] at hV
+      subst hV
+      simp only [List.mem_cons, List.not_mem_nil, or_false] at hit
+      rcases hit with rfl | rfl <;> simp [Scope.missingSerdeCrate, Ctx.serdeCrate]
+  · obtain ⟨its, hits, hit⟩ := List.mem_flatten.mp hit
+    obtain ⟨g, _, hfi⟩ := mapM_ok_mem hF its hits
+    obtain ⟨fr, _, hc⟩ := fragmentItems_ok hfi
+    exact hcalc _ _ _ _ _ _ hc it hit
+  · unfold responseItems at hR
+    exact hcalc _ _ _ _ _ _ hR it hit
+
+/-! ## 8. the executable scope check on the emitted module -/
+
+/-- **`Scope.wellScoped` on the emitted module, characterised.**  Under the hypotheses of
+    `module_well_scoped_partial`, the executable check the correspondence harness evaluates holds for the
+    module `responseForQuery` emits **iff** the decidable `NoClash` holds (no name defined twice) and no
+    item has two members of the same identifier.  (The last condition is stated on the items: it fails for
+    sibling fields that coincide after snake-casing, a field called `on` next to variants, two inline
+    fragments on the same type — known findings of C02/C01.) -/
+theorem module_well_scoped_iff (c : Ctx) (op : Nat) (items : List Item)
+    (hnorm : c.o.normalization = .none)
+    (hkwI : ∀ i ∈ c.s.inputs, keywordReplace i.name = i.name)
+    (hkwS : ∀ n ∈ c.s.scalars, keywordReplace n = n)
+    (hkwE : ∀ e ∈ c.s.enums, keywordReplace e.name = e.name)
+    (hwf : OutputOnly c.s c.q = true) (hrel : InputFieldsRelevant c.s = true)
+    (hvars : ∀ v ∈ c.q.opVariables op, Relevant v.ty.id)
+    (h : responseForQuery c op = .ok items) :
+    Scope.wellScoped items (moduleSupplied c) = true ↔
+      NoClash c op = true ∧ ∀ it ∈ items, (memberIdents it).Nodup := by
+  rw [wellScoped_iff, defines_nodup_iff c op items h]
+  have h1 := module_well_scoped_partial c op items hnorm hkwI hkwS hkwE hwf hrel hvars h
+  have h4 := module_serde_crate c op items h
+  constructor
+  · rintro ⟨_, b, c', _⟩; exact ⟨b, c'⟩
+  · rintro ⟨b, c'⟩
+    refine ⟨fun n hn => ?_, b, c', h4⟩
+    simp only [Scope.mentions, List.mem_flatMap] at hn
+    obtain ⟨it, hit, hn⟩ := hn
+    have := h1 it hit n hn
+    unfold Scope.resolved at this
+    simp only [Bool.or_eq_true, List.contains_iff_mem] at this
+    rcases this with (h | h) | h
+    · exact .inl h
+    · exact .inr (.inl h)
+    · exact .inr (.inr h)
+
+/-! ## 9. non-vacuity, and the hypotheses are needed -/
+
+/-- ```graphql
+    interface Animal { name: String }   type Dog implements Animal { name: String barks: Boolean owner: Person }
+    type Cat implements Animal { name: String }   type Person { id: ID! }   union Pet = Dog | Cat
+    enum Kind { A B }   enum Ext { X }   scalar Date   input In { k: Kind  d: Date! }
+    type Query { animal: Animal  pet: [Pet]  kind: Kind!  when: Date @deprecated  ext: Ext }
+    ``` -/
+def richSchema : Schema :=
+  { objects := [{ name := "Query", fields := [0, 1, 2, 3, 8], implements := [] },
+                { name := "Dog", fields := [4, 5, 6], implements := [0] },
+                { name := "Cat", fields := [4], implements := [0] },
+                { name := "Person", fields := [7], implements := [] }],
+    fields := [{ name := "animal", ty := { id := .interface 0, quals := [] }, parent := .object 0, deprecation := none },
+               { name := "pet", ty := { id := .union 0, quals := [.list] }, parent := .object 0, deprecation := none },
+               { name := "kind", ty := { id := .enum 0, quals := [.required] }, parent := .object 0, deprecation := none },
+               { name := "when", ty := { id := .scalar 5, quals := [] }, parent := .object 0, deprecation := some none },
+               { name := "name", ty := { id := .scalar 1, quals := [] }, parent := .interface 0, deprecation := none },
+               { name := "barks", ty := { id := .scalar 4, quals := [] }, parent := .object 1, deprecation := none },
+               { name := "owner", ty := { id := .object 3, quals := [] }, parent := .object 1, deprecation := none },
+               { name := "id", ty := { id := .scalar 0, quals := [.required] }, parent := .object 3, deprecation := none },
+               { name := "ext", ty := { id := .enum 1, quals := [] }, parent := .object 0, deprecation := none }],
+    interfaces := [{ name := "Animal", fields := [4] }],
+    unions := [{ name := "Pet", variants := [.object 1, .object 2] }],
+    scalars := Schema.defaultScalars ++ ["Date"],
+    enums := [{ name := "Kind", variants := ["A", "B"] }, { name := "Ext", variants := ["X"] }],
+    inputs := [{ name := "In", fields := [("k", { id := .enum 0, quals := [] }), ("d", { id := .scalar 5, quals := [.required] })],
+                 isOneOf := false }] }
+
+/-- ```graphql
+    fragment DogF on Dog { barks owner { id } }
+    fragment AnimalF on Animal { name ... on Dog { ...DogF } }
+    fragment QF on Query { kind }
+    query Q($v: In) {
+      animal { __typename name ... on Dog { barks owner { id } } ...DogF ... on Cat { ...AnimalF } }
+      pets: pet { __typename ... on Dog { ...DogF } ... on Cat { name } }
+      animal2: animal { ...AnimalF }
+      kind when ext ...QF
+    }
+    ``` -/
+def richQuery : Query :=
+  { fragments := [{ name := "DogF", on := .object 1, sels := [.field none 5 [], .field none 6 [.field none 7 []]] },
+                  { name := "AnimalF", on := .interface 0, sels := [.field none 4 [], .inline (.object 1) [.spread 0]] },
+                  { name := "QF", on := .object 0, sels := [.field none 2 []] }],
+    operations := [{ name := "Q", kind := .query, objectId := 0,
+                     sels := [.field none 0 [.typename, .field none 4 [],
+                                             .inline (.object 1) [.field none 5 [], .field none 6 [.field none 7 []]],
+                                             .spread 0, .inline (.object 2) [.spread 1]],
+                              .field (some "pets") 1 [.typename, .inline (.object 1) [.spread 0],
+                                                      .inline (.object 2) [.field none 4 []]],
+                              .field (some "animal2") 0 [.spread 1],
+                              .field none 2 [], .field none 3 [], .field none 8 [], .spread 2] }],
+    variables := [{ opIdx := 0, name := "v", default := none, ty := { id := .input 0, quals := [] } }] }
+
+def richCtx : Ctx := { s := richSchema, q := richQuery, o := { externEnums := ["Ext"] }, cs := ⟨id, id⟩ }
+
+/-- non-vacuity: all hypotheses of `module_well_scoped_partial` hold on a schema / query pair with an
+    interface, a union, nested objects, fragments (spread as fields, as a lone selection, inside inline
+    fragments), an extern enum, a custom scalar, a deprecated field and an input-typed variable;
+    generation succeeds (25 items) — and there the full executable check `wellScoped` holds -/
+example : richCtx.o.normalization = .none ∧
+    (∀ i ∈ richCtx.s.inputs, keywordReplace i.name = i.name) ∧
+    (∀ n ∈ richCtx.s.scalars, keywordReplace n = n) ∧
+    (∀ e ∈ richCtx.s.enums, keywordReplace e.name = e.name) ∧
+    OutputOnly richCtx.s richCtx.q = true ∧ InputFieldsRelevant richCtx.s = true ∧
+    (∀ v ∈ richCtx.q.opVariables 0, Relevant v.ty.id) ∧
+    (responseForQuery richCtx 0).toOption.map
+      (fun items => (items.length, Scope.wellScoped items (moduleSupplied richCtx))) = some (25, true) := by
+  refine ⟨rfl, hkw_of_not_keyword _ (by decide +kernel), fun n hn => ?_, fun e he => ?_, by decide, by decide,
+    fun v hv => ?_, by decide +kernel⟩
+  · rw [C11.keywordReplace_spec, if_neg]
+    revert n; decide +kernel
+  · rw [C11.keywordReplace_spec, if_neg]
+    revert e; decide +kernel
+  · have : v ∈ [richQuery.variables[0]] := hv
+    simp only [List.mem_singleton] at this
+    subst this
+    trivial
+
+/-- `type Query { e: my_enum }  enum my_enum { A }`, `query Q { e }`, `extern_enums("my_enum")`,
+    `normalization = "rust"` (heck: `my_enum` ↦ `MyEnum`) -/
+def rustCtx : Ctx :=
+  { s := { objects := [{ name := "Query", fields := [0], implements := [] }],
+           fields := [{ name := "e", ty := { id := .enum 0, quals := [] }, parent := .object 0, deprecation := none }],
+           scalars := Schema.defaultScalars,
+           enums := [{ name := "my_enum", variants := ["A"] }] },
+    q := { operations := [{ name := "Q", kind := .query, objectId := 0, sels := [.field none 0 []] }] },
+    o := { normalization := .rust, externEnums := ["my_enum"] },
+    cs := ⟨id, fun s => if s = "my_enum" then "MyEnum" else s⟩ }
+
+/-- **the normalization hypothesis of `response_mentions_resolved` is needed**: with
+    `normalization = rust` the response struct mentions the extern enum under its camel-cased name
+    (`MyEnum`), which `supplied = externEnums` (`my_enum`) does not resolve; the name-mapped statement
+    (`response_mentions_resolved_mapped`, `supplied = externSupplied`) applies and resolves it -/
+theorem normalization_needed :
+    (responseForQuery rustCtx 0).toOption.map (fun items => Scope.undefinedMentions items rustCtx.o.externEnums)
+      = some ["MyEnum"] ∧
+    (responseForQuery rustCtx 0).toOption.map (fun items => Scope.undefinedMentions items (externSupplied rustCtx))
+      = some [] ∧
+    NameMapOK rustCtx := by
+  refine ⟨by decide +kernel, by decide +kernel, ⟨?_, ?_, ?_⟩⟩
+  · decide +kernel
+  · decide +kernel
+  · decide +kernel
+
+/-- as `rustCtx`, the enum is called `__E` and is not extern (heck: `__E` ↦ `E`) -/
+def rustCtx2 : Ctx :=
+  { s := { objects := [{ name := "Query", fields := [0], implements := [] }],
+           fields := [{ name := "e", ty := { id := .enum 0, quals := [] }, parent := .object 0, deprecation := none }],
+           scalars := Schema.defaultScalars,
+           enums := [{ name := "__E", variants := ["A"] }] },
+    q := { operations := [{ name := "Q", kind := .query, objectId := 0, sels := [.field none 0 []] }] },
+    o := { normalization := .rust },
+    cs := ⟨id, fun s => if s = "__E" then "E" else s⟩ }
+
+/-- **the name-mapping hypothesis `NameMapOK` of `response_mentions_resolved_mapped` is needed**: with
+    `normalization = rust`, a name starting with `__` is left alone in field position
+    (`Normalization.fieldType`) and camel-cased in the declaration (`enumName`): the enum is emitted as `E`,
+    the response struct mentions `__E` -/
+theorem nameMap_needed :
+    (responseForQuery rustCtx2 0).toOption.map
+      (fun items => (Scope.defines items, Scope.undefinedMentions items (externSupplied rustCtx2)))
+      = some (["Boolean", "Float", "Int", "ID", "E", "Variables", "ResponseData"], ["__E"]) ∧
+    ¬ NameMapOK rustCtx2 := by
+  refine ⟨by decide +kernel, fun h => ?_⟩
+  have := h.enums { name := "__E", variants := ["A"] } (by decide)
+  revert this
+  decide +kernel
+
+/-- `type Query { a: A  aB: A2 }  type A { bC: B }  type A2 { c: B }  type B { x: Int }`,
+    `query Q { a { bC { x } } aB { c { x } } }`, heck's `to_upper_camel_case` on the names involved -/
+def clashCtx : Ctx :=
+  { s := { objects := [{ name := "Query", fields := [0, 1], implements := [] }, { name := "A", fields := [2], implements := [] },
+                       { name := "A2", fields := [3], implements := [] }, { name := "B", fields := [4], implements := [] }],
+           fields := [{ name := "a", ty := { id := .object 1, quals := [] }, parent := .object 0, deprecation := none },
+                      { name := "aB", ty := { id := .object 2, quals := [] }, parent := .object 0, deprecation := none },
+                      { name := "bC", ty := { id := .object 3, quals := [] }, parent := .object 1, deprecation := none },
+                      { name := "c", ty := { id := .object 3, quals := [] }, parent := .object 2, deprecation := none },
+                      { name := "x", ty := { id := .scalar 2, quals := [] }, parent := .object 3, deprecation := none }],
+           scalars := Schema.defaultScalars },
+    q := { operations := [{ name := "Q", kind := .query, objectId := 0,
+                            sels := [.field none 0 [.field none 2 [.field none 4 []]],
+                                     .field none 1 [.field none 3 [.field none 4 []]]] }] },
+    o := {},
+    cs := ⟨id, fun s => if s = "a" then "A" else if s = "aB" then "AB" else if s = "bC" then "BC"
+                        else if s = "c" then "C" else s⟩ }
+
+/-- **without a no-clash hypothesis the module defines a name twice** (known finding: path-name
+    collision): the selection paths `a.bC` and `aB.c` both concatenate to `QABC`; all mentions are
+    resolved (`module_well_scoped_partial` applies), `wellScoped` fails on `duplicateDefs` alone -/
+theorem defines_dup_witness :
+    (responseForQuery clashCtx 0).toOption.map (fun items => Scope.report items (moduleSupplied clashCtx))
+      = some { undefined := [], duplicateDefs := ["QABC"], duplicateMembers := [], serdeless := [] } := by
+  decide +kernel
+
+/-- the decidable `NoClash` separates the two: it holds on the rich sample and fails on the path collision -/
+example : NoClash richCtx 0 = true ∧ NoClash clashCtx 0 = false := by
+  constructor <;> decide +kernel
+
+/-- the names of the rich sample, as `moduleNames` computes them from the selection trees -/
+example : (allUsedTypes richCtx.s richCtx.q 0).toOption.map (fun u => moduleNames richCtx u richQuery.operations[0]) =
+    some ["Boolean", "Float", "Int", "ID", "Date", "Kind", "In", "Variables", "DogF", "DogFowner", "AnimalF",
+      "AnimalFOn", "AnimalFOnDog", "QF", "ResponseData", "Qanimal", "QanimalOn", "QanimalOnDog", "QanimalOnDogowner",
+      "QanimalOnCat", "Qpets", "QpetsOnDog", "QpetsOnCat", "Qanimal2"] := by
+  decide +kernel
+
+/-- `interface I { on: String }  type O implements I { on: String }  type Query { i: I }`,
+    `query Q { i { on ... on O { on } } }` -/
+def onCtx : Ctx :=
+  { s := { objects := [{ name := "Query", fields := [0], implements := [] }, { name := "O", fields := [1], implements := [0] }],
+           fields := [{ name := "i", ty := { id := .interface 0, quals := [] }, parent := .object 0, deprecation := none },
+                      { name := "on", ty := { id := .scalar 1, quals := [] }, parent := .interface 0, deprecation := none }],
+           interfaces := [{ name := "I", fields := [1] }],
+           scalars := Schema.defaultScalars },
+    q := { operations := [{ name := "Q", kind := .query, objectId := 0,
+                            sels := [.field none 0 [.field none 1 [], .inline (.object 1) [.field none 1 []]]] }] },
+    o := {}, cs := ⟨id, id⟩ }
+
+/-- **the member condition of `module_well_scoped_iff` is not implied by `NoClash`** (known finding: a
+    field called `on` next to the flattened variant field `on`): every name is defined once, all mentions
+    are resolved, the struct `Qi` has two fields `on` -/
+theorem member_dup_witness :
+    NoClash onCtx 0 = true ∧
+    (responseForQuery onCtx 0).toOption.map (fun items => Scope.report items (moduleSupplied onCtx))
+      = some { undefined := [], duplicateDefs := [], duplicateMembers := ["on"], serdeless := [] } := by
+  constructor <;> decide +kernel
+
+/-! ### the hypotheses `module_well_scoped_partial` inherits from the input / `Variables` theorems are needed
+(`hkwI`: `keyword_input_name_mismatch`, `OutputOnly`: `outputOnly_needed` in `Proofs/C02Closure.lean`) -/
+
+/-- `enum type { A }`, `query Q($v: type) { __typename }` -/
+def kwEnumCtx : Ctx :=
+  { s := { objects := [{ name := "Query", fields := [], implements := [] }],
+           scalars := Schema.defaultScalars,
+           enums := [{ name := "type", variants := ["A"] }] },
+    q := { operations := [{ name := "Q", kind := .query, objectId := 0, sels := [.typename] }],
+           variables := [{ opIdx := 0, name := "v", default := none, ty := { id := .enum 0, quals := [] } }] },
+    o := {}, cs := ⟨id, id⟩ }
+
+/-- **`hkwE` is needed** (the same mechanism gives `hkwS`): the `Variables` struct escapes the type name
+    (`type_`), the enum is declared unescaped (`type`).  In *response* position the name is not escaped
+    either, which is why the response theorems need no keyword hypothesis. -/
+theorem keyword_enum_variable_mismatch :
+    (responseForQuery kwEnumCtx 0).toOption.map
+      (fun items => (Scope.defines items, Scope.undefinedMentions items (moduleSupplied kwEnumCtx)))
+      = some (["Boolean", "Float", "Int", "ID", "type", "Variables", "ResponseData"], ["type_"]) := by
+  decide +kernel
+
+/-- `query Q($v: Query) { __typename }` (a variable of object type: rejected by GraphQL validation, not by
+    the generator) -/
+def objVarCtx : Ctx :=
+  { s := { objects := [{ name := "Query", fields := [], implements := [] }],
+           scalars := Schema.defaultScalars },
+    q := { operations := [{ name := "Q", kind := .query, objectId := 0, sels := [.typename] }],
+           variables := [{ opIdx := 0, name := "v", default := none, ty := { id := .object 0, quals := [] } }] },
+    o := {}, cs := ⟨id, id⟩ }
+
+/-- **`hvars` is needed**: `Variables` mentions the object type, for which no item is emitted -/
+theorem object_variable_unresolved :
+    (responseForQuery objVarCtx 0).toOption.map (fun items => Scope.undefinedMentions items (moduleSupplied objVarCtx))
+      = some ["Query"] := by
+  decide +kernel
 
 end C02
 end GqlVerif
